@@ -55,7 +55,41 @@ def execT (t : Target) (x : Expansion) (toks : List String) : Option String :=
   | _ => none
 
 
+/-- `PRIM <id> …`: one operation of the vocabulary of `Rust.lean` on literal arguments (`harness/primitives.py`) -/
+def execPrim (toks : List String) : String :=
+  let showR (r : Res Int) : String := match r with | .ok v => toString v | .panic _ => "PANIC" | .ub _ => "UB"
+  let prim (s b : String) : Prim := ⟨s = "1", b.toNat!⟩
+  match toks with
+  | ["cast", s, b, x] => toString (Rust.cast (prim s b) x.toInt!)
+  | ["wadd", s, b, x, y] => toString (Rust.wrappingAdd (prim s b) x.toInt! y.toInt!)
+  | ["wsub", s, b, x, y] => toString (Rust.wrappingSub (prim s b) x.toInt! y.toInt!)
+  | ["add", s, b, x, y] => showR (Rust.add (prim s b) x.toInt! y.toInt!)
+  | ["sub", s, b, x, y] => showR (Rust.sub (prim s b) x.toInt! y.toInt!)
+  | ["contains", lo, hi, x] => toString (RangeEntry.contains ⟨lo.toInt!, hi.toInt!, 0⟩ x.toInt!)
+  | ["slice", n, lo, hi] =>
+    (match Rust.sliceExcl (List.range n.toNat!) lo.toInt! hi.toInt! with
+     | .ok l => toString l | .panic _ => "PANIC" | .ub _ => "UB")
+  | ["index", n, i] =>
+    (match Rust.index (List.range n.toNat!) i.toInt! with
+     | .ok v => toString v | .panic _ => "PANIC" | .ub _ => "UB")
+  | _ => "?"
+
+partial def loopT (h : IO.FS.Stream) (out : IO.FS.Stream) (st : St) : IO Unit := do
+  let line ← h.getLine
+  if line.isEmpty then return ()
+  let toks := (line.trimAscii.toString.splitOn " ").filter (· ≠ "")
+  match toks with
+  | "PRIM" :: id :: rest =>
+    out.putStrLn s!"{id} {execPrim rest}"
+    loopT h out st
+  | _ =>
+    let (st', o) := step execT st line
+    match o with
+    | some s => out.putStrLn s
+    | none => pure ()
+    loopT h out st'
+
 def main : IO Unit := do
   let stdin ← IO.getStdin
   let stdout ← IO.getStdout
-  loop execT stdin stdout {}
+  loopT stdin stdout {}
